@@ -1,6 +1,6 @@
 //! Seeded generators for sessions (configuration + op list).
 use crate::prng::Rng;
-use crate::rig::{HAction, WCall, WKind, PROMPTS};
+use crate::rig::{HAction, WCall, WKind, PROMPTS, SMALL_PROMPTS};
 use crate::session::{Op, SessionCfg};
 use crate::sets::SetKind;
 
@@ -106,7 +106,7 @@ pub fn gen_script(rng: &mut Rng, level: usize) -> Vec<HAction> {
     (0..n)
         .map(|_| HAction {
             writes: if rng.chance(75) { gen_calls(rng) } else { vec![] },
-            set_prompt: if level >= 2 && rng.chance(30) { Some(rng.below(PROMPTS.len())) } else { None },
+            set_prompt: if level >= 2 && rng.chance(30) { Some(rng.below(SMALL_PROMPTS)) } else { None },
             fail: false,
             reject: rng.chance(12),
         })
@@ -275,7 +275,7 @@ pub fn gen_session(rng: &mut Rng, p: &Profile) -> (SessionCfg, Vec<Op>) {
     let cfg = SessionCfg {
         cmd: if off_grid { rng.below(49) } else { *rng.pick(&p.cmd_sizes) },
         hist: if off_grid || (p.hist_sizes.len() > 6 && rng.chance(25)) { rng.below(49) } else { *rng.pick(&p.hist_sizes) },
-        prompt: rng.below(PROMPTS.len()),
+        prompt: rng.below(SMALL_PROMPTS),
         set,
         use_new: rng.chance(5),
         chunk: if p.chunked_sink && rng.chance(15) { rng.range(1, 3) } else { 0 },
@@ -298,7 +298,7 @@ pub fn gen_session(rng: &mut Rng, p: &Profile) -> (SessionCfg, Vec<Op>) {
                     let c = gen_calls(rng);
                     ops.push(Op::Write(c));
                 } else {
-                    ops.push(Op::SetPrompt(rng.below(PROMPTS.len())));
+                    ops.push(Op::SetPrompt(rng.below(SMALL_PROMPTS)));
                 }
             }
             ops.push(Op::Byte(b));
@@ -378,7 +378,7 @@ pub fn gen_session(rng: &mut Rng, p: &Profile) -> (SessionCfg, Vec<Op>) {
                 let c = gen_calls(rng);
                 ops.push(Op::Write(c));
             }
-            12 => ops.push(Op::SetPrompt(rng.below(PROMPTS.len()))),
+            12 => ops.push(Op::SetPrompt(rng.below(SMALL_PROMPTS))),
             _ => {
                 let keys = gen_motif(rng, p, &dict, cfg.cmd);
                 for k in keys {
@@ -398,6 +398,162 @@ pub fn gen_session(rng: &mut Rng, p: &Profile) -> (SessionCfg, Vec<Op>) {
         }
         for _ in 0..n {
             ops.extend([0x1b, b'[', b'B'].map(Op::Byte));
+        }
+    }
+    (cfg, ops)
+}
+
+// ------------------------------------------------------------------ large buffers
+
+/// sizes around 255 / 256 / 511 / 512 / 1023 / 1024: lengths, offsets, counts and columns that no longer fit one octet
+pub const LARGE_SIZES: [usize; 16] = [200, 254, 255, 256, 257, 258, 300, 510, 511, 512, 513, 640, 767, 1023, 1024, 1100];
+
+fn base36(mut i: usize) -> String {
+    const D: &[u8] = b"abcdefgijkmnoqrstuvwxyz0123456789"; // no h, l, p: never spells `help`
+    let mut v = vec![];
+    loop {
+        v.push(D[i % D.len()]);
+        i /= D.len();
+        if i == 0 {
+            break;
+        }
+    }
+    v.reverse();
+    String::from_utf8(v).unwrap()
+}
+
+/// A session in buffers of 200..1100 bytes made of *bursts*: hundreds of characters, of cursor moves, of deletions, of
+/// tokens, of submitted distinct lines, of recall steps -- so that line lengths, cursor positions, token counts, entry
+/// counts, entry offsets and terminal columns all cross 255 / 256 (and 511 / 512, 1023 / 1024).
+pub fn gen_large_session(rng: &mut Rng, p: &Profile) -> (SessionCfg, Vec<Op>) {
+    let set = *rng.pick(&p.sets);
+    let size = |rng: &mut Rng| if rng.chance(30) { rng.range(200, 1100) } else { *rng.pick(&LARGE_SIZES) };
+    let cfg = SessionCfg {
+        cmd: size(rng),
+        hist: if rng.chance(10) { *rng.pick(&HIST_SIZES) } else { size(rng) },
+        prompt: if rng.chance(35) { rng.range(SMALL_PROMPTS, PROMPTS.len() - 1) } else { rng.below(SMALL_PROMPTS) },
+        set,
+        use_new: rng.chance(5),
+        chunk: if p.chunked_sink && rng.chance(10) { rng.range(1, 3) } else { 0 },
+        script: gen_script(rng, p.handler_level),
+    };
+    let any_prompt = |rng: &mut Rng| if rng.chance(40) { rng.range(SMALL_PROMPTS, PROMPTS.len() - 1) } else { rng.below(SMALL_PROMPTS) };
+    let mut ops: Vec<Op> = Vec::new();
+    let bytes = |ops: &mut Vec<Op>, b: &[u8]| ops.extend(b.iter().map(|&x| Op::Byte(x)));
+    let burst_len = |rng: &mut Rng| match rng.below(4) {
+        0 => rng.range(1, 8),
+        1 => rng.range(240, 270),
+        2 => rng.range(500, 530),
+        _ => rng.range(20, 450),
+    };
+    let mut next_line = rng.below(1000);
+    let nsteps = rng.range(5, 16);
+    for _ in 0..nsteps {
+        if ops.len() > 9000 {
+            break;
+        }
+        match rng.weighted(&[p.w_char, p.w_word * 3, p.w_left, p.w_right, p.w_backspace, p.w_enter, p.w_up, p.w_down, p.w_tab, p.w_write, p.w_set_prompt, p.w_pool_line]) {
+            0 => {
+                // a burst of one character (every encoded length), or of a short mixed pattern
+                let k = burst_len(rng);
+                if rng.chance(50) {
+                    let s = if rng.chance(15) { random_scalar(rng).to_string() } else { SIGMA[rng.weighted(&SIGMA_W)].to_string() };
+                    for _ in 0..k {
+                        bytes(&mut ops, s.as_bytes());
+                    }
+                } else {
+                    for _ in 0..k {
+                        bytes(&mut ops, SIGMA[rng.weighted(&SIGMA_W)].as_bytes());
+                    }
+                }
+            }
+            1 => {
+                // hundreds of tokens (values, options, clusters, empty tokens)
+                let k = burst_len(rng);
+                let names = set.names();
+                let name = if rng.chance(50) && !names.is_empty() { rng.pick(&names).clone() } else { "a".to_string() };
+                bytes(&mut ops, name.as_bytes());
+                for j in 0..k {
+                    bytes(&mut ops, b" ");
+                    let t = match rng.below(8) {
+                        0 => "-b".to_string(),
+                        1 => "--c".to_string(),
+                        2 => "\"\"".to_string(),
+                        3 => "é".to_string(),
+                        4 => "--".to_string(),
+                        _ => base36(j),
+                    };
+                    bytes(&mut ops, t.as_bytes());
+                }
+            }
+            2 => {
+                for _ in 0..burst_len(rng) {
+                    bytes(&mut ops, &LEFT);
+                }
+            }
+            3 => {
+                for _ in 0..burst_len(rng) {
+                    bytes(&mut ops, &RIGHT);
+                }
+            }
+            4 => {
+                for _ in 0..burst_len(rng) {
+                    bytes(&mut ops, &[0x08]);
+                }
+            }
+            5 => {
+                let e = enter_bytes(rng);
+                bytes(&mut ops, &e);
+            }
+            6 => {
+                for _ in 0..burst_len(rng) {
+                    bytes(&mut ops, &UP);
+                }
+                let mut f = vec![];
+                follow_up(rng, &mut f);
+                for k in f {
+                    bytes(&mut ops, &k);
+                }
+            }
+            7 => {
+                for _ in 0..burst_len(rng) {
+                    bytes(&mut ops, &DOWN);
+                }
+            }
+            8 => bytes(&mut ops, &[0x09]),
+            9 => {
+                let mut c = gen_calls(rng);
+                if rng.chance(40) {
+                    // one long text: more than 255 / 256 characters in one write, with and without line breaks inside
+                    let unit = *rng.pick(&["xy", "é", "x\ny", "€ ", "z"]);
+                    let n = burst_len(rng);
+                    c.push(WCall { kind: *rng.pick(&[WKind::Str, WKind::Ln, WKind::Ufmt, WKind::Fmt]), text: unit.repeat(n) });
+                }
+                ops.push(Op::Write(c));
+            }
+            10 => ops.push(Op::SetPrompt(any_prompt(rng))),
+            _ => {
+                // hundreds of distinct short lines submitted one after the other: entry counts and entry offsets beyond 255
+                let k = burst_len(rng);
+                for _ in 0..k {
+                    let l = base36(next_line);
+                    next_line += 1;
+                    bytes(&mut ops, l.as_bytes());
+                    bytes(&mut ops, b"\r");
+                }
+            }
+        }
+    }
+    if p.end_probe {
+        let n = (cfg.hist / 2 + 2).min(560);
+        for _ in 0..3 {
+            bytes(&mut ops, &DOWN);
+        }
+        for _ in 0..n {
+            bytes(&mut ops, &UP);
+        }
+        for _ in 0..n {
+            bytes(&mut ops, &DOWN);
         }
     }
     (cfg, ops)
